@@ -391,6 +391,11 @@ pub fn run(a: &Args) -> i32 {
                 // a @oneOf member written non-null: not generated by this harness; should not happen
                 rep.internal.push(format!("unexpected double-required panic for {}", c.family));
             }
+            // the generator succeeded but the extractor cannot read a construct of the emitted code: a broken tie (the
+            // IR-based oracles cannot run), not a refusal of the input
+            (RealOutcome::Ok(_), None) => {
+                rep.disagree(json!({"what": "the emitted tokens could not be read into the IR", "file": "c12.rs"}));
+            }
             (other, _) => rep.fail("generation-failed", json!({"family": c.family, "outcome": format!("{:?}", other), "schema": sdl, "query": q})),
         }
     }
